@@ -980,8 +980,8 @@ def _set_default_options(options, n):
     Set the default options.
     """
     for key in [Options.RHOBEG, Options.RHOEND]:
-        if key in options and np.isnan(options[key]):
-            raise ValueError(f"The option {key.value} must not be NaN.")
+        if key in options and not np.isfinite(options[key]):
+            raise ValueError(f"The option {key.value} must be finite.")
     if Options.RHOBEG in options and options[Options.RHOBEG] <= 0.0:
         raise ValueError("The initial trust-region radius must be positive.")
     if Options.RHOEND in options and options[Options.RHOEND] < 0.0:
@@ -1092,8 +1092,8 @@ def _set_default_constants(**kwargs):
     """
     constants = dict(kwargs)
     for key, value in constants.items():
-        if key in Constants.__members__.values() and np.isnan(value):
-            raise ValueError(f"The constant {key} must not be NaN.")
+        if key in Constants.__members__.values() and not np.isfinite(value):
+            raise ValueError(f"The constant {key} must be finite.")
     constants.setdefault(
         Constants.DECREASE_RADIUS_FACTOR.value,
         DEFAULT_CONSTANTS[Constants.DECREASE_RADIUS_FACTOR],
